@@ -12,6 +12,7 @@
 #include "colvarcomp.h"
 #include "c02_ref.h"
 #include <memory>
+#include <set>
 
 using namespace vc;
 using namespace c02;
@@ -81,7 +82,8 @@ static std::string group_conf(GroupSpec const &g, std::string const &ind)
     else if (g.center) s += ind + "  centerToReference on\n";
     if (g.rotate) s += ind + "  rotateToReference on\n";
     if (g.refpos.size()) s += ind + "  refPositions" + v3list(g.refpos) + "\n";
-    if (g.fit_atoms.size()) s += ind + "  fittingGroup {\n" + ind + "    atomNumbers" + ilist(g.fit_atoms) + "\n" + ind + "  }\n";
+    if (g.fit_atoms.size()) s += ind + "  fittingGroup {\n" + ind + "    atomNumbers" + ilist(g.fit_atoms) + "\n" +
+                                (g.fit_extra.size() ? ind + "    atomNumbers" + ilist(g.fit_extra) + "\n" : std::string()) + ind + "  }\n";
   }
   return s + ind + "}\n";
 }
@@ -236,6 +238,7 @@ static bool apply_opt(Family const &f, int opt, CompSpec &c)
 // ------------------------------------------------------------------ a case and its transformations
 struct Case {
   std::vector<CompSpec> comps; Sys sys; std::string id; std::string sigbase; std::string optclass;
+  bool combined = false;   // also run the combined reorder+duplicate menu on this base case
 };
 
 struct Entity { int ci, gi; bool fit; std::string name; };
@@ -311,6 +314,22 @@ static bool has_per_atom_data(std::vector<CompSpec> const &comps, Entity const &
   return e.gi == 0 && per_atom_type(c.type);
 }
 
+// reorder the atom list of an entity; co: also reorder the per-atom reference data that belongs to it
+static void apply_perm(std::vector<CompSpec> &comps, Entity const &ee, std::vector<int> const &p, bool co)
+{
+  CompSpec &c = comps[ee.ci]; GroupSpec &g = c.groups[ee.gi];
+  permute(elist(comps, ee), p);
+  if (!co) return;
+  if (ee.fit) { if (g.refpos.size() == p.size()) permute(g.refpos, p); return; }
+  if (g.has_fit && g.fit_atoms.empty() && g.refpos.size() == p.size()) permute(g.refpos, p);
+  if (ee.gi == 0 && per_atom_type(c.type)) {
+    if (c.refpos.size() == p.size()) permute(c.refpos, p);
+    if (c.vec.size() == p.size()) permute(c.vec, p);
+  }
+}
+
+static bool is_dup_class(std::string const &cls) { return cls == "duplicate" || cls == "reorder+duplicate"; }
+
 static std::vector<Xf> transformations(Case const &cs, bool thorough)
 {
   std::vector<Xf> T;
@@ -377,17 +396,7 @@ static std::vector<Xf> transformations(Case const &cs, bool thorough)
       std::string ps; for (int i : p) ps += std::to_string(i);
       Entity ee = e;
       T.push_back({"perm:" + e.name + ":" + ps + (pad ? (co ? ":with-data" : ":list-only") : ""), "reorder",
-                   [ee, p, co](std::vector<CompSpec> &comps, Sys &) {
-                     CompSpec &c = comps[ee.ci]; GroupSpec &g = c.groups[ee.gi];
-                     permute(elist(comps, ee), p);
-                     if (!co) return;
-                     if (ee.fit) { if (g.refpos.size() == p.size()) permute(g.refpos, p); return; }
-                     if (g.has_fit && g.fit_atoms.empty() && g.refpos.size() == p.size()) permute(g.refpos, p);
-                     if (ee.gi == 0 && per_atom_type(c.type)) {
-                       if (c.refpos.size() == p.size()) permute(c.refpos, p);
-                       if (c.vec.size() == p.size()) permute(c.vec, p);
-                     }
-                   }});
+                   [ee, p, co](std::vector<CompSpec> &comps, Sys &) { apply_perm(comps, ee, p, co != 0); }});
     }
   }
   // duplicate listing of each atom of each group
@@ -408,6 +417,55 @@ static std::vector<Xf> transformations(Case const &cs, bool thorough)
                        else if (st == 'B') l.insert(l.begin() + k + 1, a);
                        else { g.extra.push_back(a); g.extra_style = (st == 'C') ? 1 : 2; }
                      }});
+      }
+    }
+  }
+  // COMBINED: duplicate listing applied to reordered (descending, rotated, two shuffled) atom lists, per-atom reference data
+  // co-permuted; every atom at every insertion position (groups <= 4 atoms) or first/middle/last position (larger groups);
+  // written with one keyword, or split over two atomNumbers keywords just before the second occurrence.
+  if (cs.combined) {
+    for (auto &e : E) {
+      std::vector<CompSpec> tmp = cs.comps;
+      std::vector<int> base_list = elist(tmp, e);
+      int n = (int) base_list.size();
+      if (n < 2) continue;
+      std::vector<int> idp(n);
+      for (int i = 0; i < n; i++) idp[i] = i;
+      std::vector<std::vector<int>> orders;
+      auto add_order = [&](std::vector<int> p) { if (p != idp && std::find(orders.begin(), orders.end(), p) == orders.end()) orders.push_back(p); };
+      { std::vector<int> p = idp; std::reverse(p.begin(), p.end()); add_order(p); }
+      { std::vector<int> p = idp; std::rotate(p.begin(), p.begin() + 1, p.end()); add_order(p); }
+      if (n == 3) { add_order({2, 0, 1}); add_order({1, 0, 2}); }
+      if (n == 4) { add_order({2, 0, 3, 1}); add_order({1, 3, 0, 2}); }
+      if (n == 5) { add_order({3, 0, 4, 1, 2}); add_order({1, 4, 2, 0, 3}); }
+      std::set<std::string> seen_lists;
+      for (auto &ord : orders) {
+        std::vector<int> lst(n);
+        for (int i = 0; i < n; i++) lst[i] = base_list[ord[i]];
+        std::vector<int> positions;
+        if (n <= 4) for (int q = 0; q <= n; q++) positions.push_back(q);
+        else positions = {0, (n + 1) / 2, n};
+        for (int k = 0; k < n; k++) for (int pos : positions) for (int style = 0; style < 2; style++) {
+          std::vector<int> full = lst;
+          full.insert(full.begin() + pos, lst[k]);
+          // index of the later occurrence of the duplicated atom
+          int second = -1;
+          for (int i = (int) full.size() - 1; i >= 0; i--) if (full[i] == lst[k]) { second = i; break; }
+          int split = style ? std::max(1, second - 1) : (int) full.size();
+          std::string key = ilist(full) + "|" + std::to_string(split);
+          if (!seen_lists.insert(key).second) continue;
+          std::string os; for (int i : ord) os += std::to_string(i);
+          Entity ee = e;
+          T.push_back({"permdup:" + e.name + ":order" + os + ":atom" + std::to_string(k) + ":at" + std::to_string(pos) + (style ? ":two-keywords" : ":one-keyword"),
+                       "reorder+duplicate",
+                       [ee, ord, full, split](std::vector<CompSpec> &comps, Sys &) {
+                         apply_perm(comps, ee, ord, true);
+                         GroupSpec &g = comps[ee.ci].groups[ee.gi];
+                         std::vector<int> first(full.begin(), full.begin() + split), rest(full.begin() + split, full.end());
+                         if (ee.fit) { g.fit_atoms = first; g.fit_extra = rest; }
+                         else { g.atoms = first; g.extra = rest; g.extra_style = 1; }
+                       }});
+        }
       }
     }
   }
@@ -744,7 +802,7 @@ static void run_case(Ctx &cx, Case const &cs, bool thorough, std::string const &
     std::vector<size_t> which;
     std::vector<Val> refs;
     for (size_t ti = 0; ti < T.size(); ti++) {
-      if (T[ti].cls != "duplicate" || !selected(T[ti])) continue;
+      if (!is_dup_class(T[ti].cls) || !selected(T[ti])) continue;
       std::vector<CompSpec> comps = cs.comps; Sys sys = cs.sys;
       T[ti].apply(comps, sys);
       Val ref = ref_colvar(comps, sys);
@@ -772,7 +830,7 @@ static void run_case(Ctx &cx, Case const &cs, bool thorough, std::string const &
 
   // pass C: the remaining transformations, each on a fresh module
   for (auto &t : T) {
-    if (t.cls == "duplicate" || (t.positions_only() && !fresh_only) || !selected(t)) continue;
+    if (is_dup_class(t.cls) || (t.positions_only() && !fresh_only) || !selected(t)) continue;
     std::vector<CompSpec> comps = cs.comps; Sys sys = cs.sys;
     t.apply(comps, sys);
     Val ref = ref_colvar(comps, sys);
@@ -828,6 +886,9 @@ static std::vector<Case> enumerate(bool thorough)
           cs.sigbase = "C02:" + c.type;   // variant, combination, geometry and transformation are in the detail record
           std::string o = OPTS[opt];
           cs.optclass = (o == "plain" || o == "dummy") ? o : (o.find("-off-only") != std::string::npos ? o : "userfit");
+          // the combined reorder+duplicate menu concerns the atom list only: one (thorough: three) geometry/table, no cell
+          cs.combined = (cell == 0) && (comb == 0) && (thorough ? ((g.first == 0 && g.second == 0) || (g.first == 1 && g.second == 1) || (g.first == 2 && g.second == 0))
+                                                 : (g.first == 0 && g.second == 0));
           out.push_back(cs);
         }
       }
@@ -910,7 +971,12 @@ int main(int argc, char **argv)
   bool ok = run_sharded(args.jobs, [&](int shard, int nshards, Result &r) {
     Ctx cx{&r, false};
     int first = -1, last = -1;
-    for (size_t i = shard; i < cases.size(); i += nshards) {
+    // heavy base cases (those that also run the combined menu) are dealt round-robin first, then the others
+    std::vector<size_t> order;
+    for (size_t i = 0; i < cases.size(); i++) if (cases[i].combined) order.push_back(i);
+    for (size_t i = 0; i < cases.size(); i++) if (!cases[i].combined) order.push_back(i);
+    for (size_t j = shard; j < order.size(); j += nshards) {
+      size_t i = order[j];
       if (first < 0) first = (int) i;
       last = (int) i;
       run_case(cx, cases[i], thorough);
